@@ -21,24 +21,59 @@ def classify(stream, case, out):
     s = reggen.stats(case, out)
     return '%s threads=%d' % (stream, s['threads'])
 
+def gen_evparent(rng, tier):
+    """what a layer is shown as an event's / a new span's parent and scope (Context::event_span, event_scope, span(id).parent(),
+    span_scope, lookup_current) for contextual, explicit and explicit-ROOT parents, with out-of-order exits; plain layers only
+    (no filtering involved) — model and specification Core/Lookup"""
+    import importlib
+    c07 = importlib.import_module('checks.C07')
+    n = 600 if tier == 'quick' else 12000
+    for _ in range(n):
+        ops = c07.gen_lookup_ops(rng, rng.choice([10, 25, 50]), ['P1'])
+        # out-of-order exits are part of this property: swap some exits
+        ex = [i for i, o in enumerate(ops) if o.startswith('ex ')]
+        if len(ex) >= 2 and rng.random() < 0.5:
+            i, j = rng.sample(ex, 2); ops[i], ops[j] = ops[j], ops[i]
+        yield rng.choice(['P1', 'P1 P2']) + ' ;; ' + ' ; '.join(ops)
+
+def _valid_evparent(case):
+    # an exit must follow its enter (a swap can put it before)
+    entered = set()
+    for o in case.split(' ;; ')[1].split(' ; '):
+        w = o.split()
+        if w[0] == 'en': entered.add(w[1])
+        elif w[0] == 'ex':
+            if w[1] not in entered: return False
+            entered.discard(w[1])
+        elif w[0] == 'cl' and w[1] in entered: return False
+    return True
+
+_ev = Stream('evparent', 'h_lookup', mode='modellookup', gen=lambda rng, tier: (c for c in gen_evparent(rng, tier) if _valid_evparent(c)),
+             nontrivial=lambda case, out: ' r' in case and ',' in out, spec_mode='speclookup')
+_ev.valid_case = _valid_evparent
+
 PROPERTY = {
     'manifest': {
         'text': "Lean 4 theorems: for EVERY per-thread enter/exit sequence without same-thread re-entry (any exit order) the SpanStack the code keeps equals the "
                 "list of entered-not-yet-exited spans and current() is its last element (current_is_last_unexited, by induction over the sequence); enter/exit on one thread "
                 "never changes another thread's stack (thread_independent, through the whole try_close cascade); a new span's stored parent is root/explicit/current "
                 "(parent_resolution); a scope is the span followed by the scope of its stored parent (scope_is_ancestor_chain). The hand-written model is run against the real "
-                "Registry (lookup_current, event_span, event_scope, scope, from_root = reverse, Span::current) on generated multi-thread histories and against the stack-free specification.",
+                "Registry (lookup_current, event_span, event_scope, scope, from_root = reverse, Span::current) on generated multi-thread histories and against the stack-free specification. "
+                "Events: an explicit-root event has no span, a contextual one the most recently entered span, an explicit parent exactly that span, and its scope is that span's ancestor chain "
+                "(event_parent_resolution, span_parent_resolution, event_scope_is_chain over Core/Lookup); recording layers look these up inside every callback for all three parent kinds (stream evparent).",
         'note': "Trusted: Lean kernel; propext/Classical.choice/Quot.sound; slab key reuse abstracted (ids = creation indices); 'ancestors stay readable while a descendant is alive' is checked by "
                 "the correspondence/spec run (scope walks and presence lookups), its proof needs the reference-count invariant of C05 which is not yet a theorem; SpanTrace capture = a cloned handle.",
         'technique': 'Lean 4 proof (induction over enter/exit sequences) of a hand-written model + differential run against the real Registry',
     },
-    'lean_module': 'TracingModel.Props.C06',
+    'lean_module': 'TracingModel.Props.C06E',
+    'leanchecker_modules': ['TracingModel.Props.C06'],
     'namespace': 'C06',
     'units': [],
-    'required_theorems': ['C06.current_is_last_unexited', 'C06.stack_is_spec', 'C06.thread_independent', 'C06.parent_resolution', 'C06.scope_is_ancestor_chain'],
+    'required_theorems': ['C06.current_is_last_unexited', 'C06.stack_is_spec', 'C06.thread_independent', 'C06.parent_resolution', 'C06.scope_is_ancestor_chain', 'C06.event_parent_resolution', 'C06.span_parent_resolution', 'C06.event_scope_is_chain'],
     'streams': [
         Stream('hist', 'h_registry', gen=gen, nontrivial=nontrivial, spec_mode='spec'),
         Stream('reentry', 'h_registry', gen=gen_reentry, nontrivial=nontrivial),
+        _ev,
     ],
     'rule': 'one case = one history on 1-3 threads over a forest of <=14 spans with guard-style enter/exit, out-of-order exits biased to entries two or more below the top, contextual/root/explicit children, '
             'events (event_span, lookup_current, event_scope and its from_root reverse), Span::current, scope walks; stream reentry adds same-thread re-entry (compared with the model only: the property excludes it '
